@@ -367,6 +367,18 @@ def mutated_names(nodes):
     return out
 
 
+def is_access_path(e):
+    """a name, or attribute / constant-or-name item steps from one: a local bound to it is an alias of that object, so replacing the
+    local by the path is right even when the object is changed through it"""
+    if isinstance(e, (ast.Name, ast.Constant)):
+        return True
+    if isinstance(e, ast.Attribute):
+        return is_access_path(e.value)
+    if isinstance(e, ast.Subscript) and isinstance(e.slice, (ast.Name, ast.Constant)):
+        return is_access_path(e.value)
+    return False
+
+
 def _stored_names(node):
     return set(n.id for n in ast.walk(node) if isinstance(n, ast.Name) and isinstance(n.ctx, (ast.Store, ast.Del)))
 
@@ -441,7 +453,8 @@ def expand(path, env=None, cap=1500, keep=()):
     res = Expanded()
     decided = {}
     named = {}
-    keep = set(keep) | mutated_names(path.stmts)
+    mutated = mutated_names(path.stmts)
+    keep = set(keep)
     for item in path.items:
         if item[0] == 'cond':
             e, pol = item[1], item[2]
@@ -494,11 +507,12 @@ def expand(path, env=None, cap=1500, keep=()):
         if isinstance(st, ast.Assign):
             for t in st.targets:
                 if isinstance(t, ast.Name):
-                    if _size(new.value) <= cap and t.id not in keep:
+                    if _size(new.value) <= cap and t.id not in keep and (t.id not in mutated or is_access_path(new.value)):
                         env[t.id] = new.value
                     else:
                         env.pop(t.id, None)
-                elif isinstance(t, (ast.Tuple, ast.List)) and all(isinstance(e, ast.Name) for e in t.elts) and _size(new.value) * len(t.elts) <= cap:
+                elif isinstance(t, (ast.Tuple, ast.List)) and all(isinstance(e, ast.Name) for e in t.elts) and _size(new.value) * len(t.elts) <= cap \
+                        and not any(e.id in mutated or e.id in keep for e in t.elts):
                     # unpacking: element i of the value
                     for i, e in enumerate(t.elts):
                         if isinstance(new.value, (ast.Tuple, ast.List)) and len(new.value.elts) == len(t.elts):
@@ -553,7 +567,8 @@ def dominating_env(fn, stmt, cap=1500, keep=(), deep=True):
     if node is not fn:
         raise AnalysisError('construct not understood: statement outside the function')
     chain.reverse()          # outermost statement first
-    keep = set(keep) | mutated_names([fn])
+    mutated = mutated_names([fn])
+    keep = set(keep)
     env = {}
     owner = fn
     for inner in chain:
@@ -581,7 +596,7 @@ def dominating_env(fn, stmt, cap=1500, keep=(), deep=True):
                     and len(st.value.elts) == len(st.targets[0].elts) and all(isinstance(t, ast.Name) for t in st.targets[0].elts):
                 vals = [subst(v, env) if deep else v for v in st.value.elts]
                 for t, val in zip(st.targets[0].elts, vals):
-                    if _size(val) <= cap and t.id not in keep:
+                    if _size(val) <= cap and t.id not in keep and (t.id not in mutated or is_access_path(val)):
                         env[t.id] = val
                     else:
                         env.pop(t.id, None)
@@ -590,14 +605,14 @@ def dominating_env(fn, stmt, cap=1500, keep=(), deep=True):
                 # unpacking of a computed value: element i of it
                 val = subst(st.value, env) if deep else st.value
                 for i, t in enumerate(st.targets[0].elts):
-                    if _size(val) * len(st.targets[0].elts) <= cap and t.id not in keep:
+                    if _size(val) * len(st.targets[0].elts) <= cap and t.id not in keep and t.id not in mutated:
                         env[t.id] = ast.Subscript(value=val, slice=ast.Constant(value=i), ctx=ast.Load())
                     else:
                         env.pop(t.id, None)
             elif isinstance(st, ast.Assign) and all(isinstance(t, ast.Name) for t in st.targets):
                 val = subst(st.value, env) if deep else st.value
                 for t in st.targets:
-                    if _size(val) <= cap and t.id not in keep:
+                    if _size(val) <= cap and t.id not in keep and (t.id not in mutated or is_access_path(val)):
                         env[t.id] = val
                     else:
                         env.pop(t.id, None)
@@ -635,4 +650,26 @@ def replacements(orig, new, name):
         ie = getattr(n, '_ifexp', None)
         if ie is not None and any(isinstance(x, ast.Name) and x.id == name for x in ast.walk(ie.test)):
             out.append(n)
+    return out
+
+
+def stores_by_path(fn, keep=()):
+    """{access path text: [(value text, statement)]} for every item store whose key is a string constant, with the local aliases in
+    the path and in the value replaced by what they stand for (`h = rec['header']; h['a'] = h['b'] = 4` stores 4 under
+    rec['header']['a'] and rec['header']['b'])"""
+    from .engine import iter_stmts
+    out = {}
+    for st in iter_stmts(fn.body):
+        if not isinstance(st, ast.Assign):
+            continue
+        tg = [t for t in st.targets if isinstance(t, ast.Subscript)]
+        # item stores, also `x[k][...] = v`
+        tg = [t.value if (isinstance(t.slice, ast.Constant) and t.slice.value is Ellipsis and isinstance(t.value, ast.Subscript)) else t for t in tg]
+        tg = [t for t in tg if isinstance(t.slice, ast.Constant) and isinstance(t.slice.value, str)]
+        if not tg:
+            continue
+        env = dominating_env(fn, st, keep=keep)
+        val = norm(subst(st.value, env))
+        for t in tg:
+            out.setdefault(norm(subst(t, env)), []).append((val, st))
     return out
